@@ -57,6 +57,7 @@ type Task struct {
 
 	prio  int
 	steps int
+	stuck bool // self-deadlocked: never resumed again
 }
 
 // Point returns the hook point or step label the task is parked at.
@@ -384,11 +385,14 @@ func (s *Sim) HookAcquire(key any, point string) {
 	if l.Owner == t {
 		s.mu.Unlock()
 		s.Violate(s.deadlockProp(), "self-deadlock", "task %s re-acquires lock %s it already owns at %s", t.Name, l.Name, point)
-		// Do not proceed into the real Lock(): it would block forever.
+		// Do not proceed into the real Lock(): it would block forever (and not durably).
+		// The goroutine stays parked for good, also while draining.
 		t.wantLock = nil
+		t.stuck = true
 		t.cond = func() bool { return false }
-		t.park(point)
-		return
+		for {
+			t.park(point)
+		}
 	}
 	t.wantLock = l
 	s.mu.Unlock()
@@ -823,7 +827,7 @@ func (s *Sim) Drain(until func() bool) {
 		}
 		var next *Task
 		for _, t := range s.tasks {
-			if t.state != StParked {
+			if t.state != StParked || t.stuck {
 				continue
 			}
 			if t.wantLock != nil && t.wantLock.Owner != nil {
